@@ -394,7 +394,9 @@ func dnsEntry(e *venum.E, a *vh.Args) {
 	vsched.InlineGo = true // rewritten go statements (the responder's per-datagram goroutine) run synchronously
 	// wire-format parser: headers x bodies built from a token alphabet, pointer chains, small strings
 	// (the last two tokens are EDNS OPT pseudo-records, version 0 and version 1)
-	tokens := [][]byte{{0x00, 0x00, 0x29, 0x10, 0x00, 0x00, 0x00, 0x00, 0x00, 0x00, 0x00}, {0x00, 0x00, 0x29, 0x10, 0x00, 0x00, 0x01, 0x00, 0x00, 0x00, 0x00}, {0x00}, {0x01, 'a'}, append([]byte{0x3f}, bytes.Repeat([]byte{'b'}, 63)...), {0x40, 'x'}, {0x80}, {0xc0, 0x0c}, {0xc0, 0x00}, {0xc0, 0xff}, {0xc0, 0x0e}, {0x00, 0x10, 0x00, 0x01}, {0x00, 0x00, 0x00, 0x3c, 0x00, 0x02, 0x01, 'z'}, {0x00, 0x00, 0x00, 0x3c, 0xff, 0xff}}
+	// (the first two tokens are TXT questions for the responder's own domain: bare, and with one base32 data label)
+	dom := []byte{0x01, 't', 0x07, 'e', 'x', 'a', 'm', 'p', 'l', 'e', 0x03, 'c', 'o', 'm', 0x00, 0x00, 0x10, 0x00, 0x01}
+	tokens := [][]byte{dom, append([]byte{0x05, 'm', 'f', 'r', 'g', 'g'}, dom...), {0x00, 0x00, 0x29, 0x10, 0x00, 0x00, 0x00, 0x00, 0x00, 0x00, 0x00}, {0x00, 0x00, 0x29, 0x10, 0x00, 0x00, 0x01, 0x00, 0x00, 0x00, 0x00}, {0x00}, {0x01, 'a'}, append([]byte{0x3f}, bytes.Repeat([]byte{'b'}, 63)...), {0x40, 'x'}, {0x80}, {0xc0, 0x0c}, {0xc0, 0x00}, {0xc0, 0xff}, {0xc0, 0x0e}, {0x00, 0x10, 0x00, 0x01}, {0x00, 0x00, 0x00, 0x3c, 0x00, 0x02, 0x01, 'z'}, {0x00, 0x00, 0x00, 0x3c, 0xff, 0xff}}
 	var bodies [][]byte
 	var rec func(cur []byte, depth int)
 	rec = func(cur []byte, depth int) {
